@@ -181,11 +181,9 @@ impl PatchLocator {
                 }
             }
             DisambiguatedId::FromTop(offset) => {
-                let index = (stack.applied().len() as isize) - 1 + offset;
-                if index >= 0 && (index as usize) < patches.len() {
-                    Ok(index)
-                } else {
-                    Err(Error::InvalidOffsetFrom(id.string_for_error()))
+                match ((stack.applied().len() as isize) - 1).checked_add(offset) {
+                    Some(index) if index >= 0 && (index as usize) < patches.len() => Ok(index),
+                    _ => Err(Error::InvalidOffsetFrom(id.string_for_error())),
                 }
             }
             DisambiguatedId::FromBase(offset) => {
@@ -203,8 +201,11 @@ impl PatchLocator {
             DisambiguatedId::FromLast(offset) => {
                 if patches.is_empty() {
                     Err(Error::NoLastPatch)
-                } else if let Some(index) = (stack.applied_and_unapplied().count() - 1)
-                    .checked_add_signed(offset)
+                } else if let Some(index) = stack
+                    .applied_and_unapplied()
+                    .count()
+                    .checked_sub(1)
+                    .and_then(|last| last.checked_add_signed(offset))
                     .filter(|&index| index < patches.len())
                 {
                     Ok(index as isize)
@@ -290,11 +291,9 @@ impl PatchLocator {
                 }
             }
             DisambiguatedId::FromTop(offset) => {
-                let index = (stack.applied().len() as isize) - 1 + offset;
-                if index >= 0 && (index as usize) < patches.len() {
-                    Ok(index)
-                } else {
-                    Err(Error::InvalidOffsetFrom(id.string_for_error()))
+                match ((stack.applied().len() as isize) - 1).checked_add(offset) {
+                    Some(index) if index >= 0 && (index as usize) < patches.len() => Ok(index),
+                    _ => Err(Error::InvalidOffsetFrom(id.string_for_error())),
                 }
             }
             DisambiguatedId::FromBase(offset) => {
@@ -308,8 +307,11 @@ impl PatchLocator {
             DisambiguatedId::FromLast(offset) => {
                 if patches.is_empty() {
                     Err(Error::NoLastPatch)
-                } else if let Some(index) = (stack.applied_and_unapplied().count() - 1)
-                    .checked_add_signed(offset)
+                } else if let Some(index) = stack
+                    .applied_and_unapplied()
+                    .count()
+                    .checked_sub(1)
+                    .and_then(|last| last.checked_add_signed(offset))
                     .filter(|&index| index < patches.len())
                 {
                     Ok(index as isize)
@@ -404,7 +406,7 @@ impl PatchLocator {
                 offsets: self.offsets.clone(),
             },
             PatchId::BelowLast(n) => DisambiguatedLocator {
-                id: DisambiguatedId::FromLast(n.map_or(0, |n| -n)),
+                id: DisambiguatedId::FromLast(n.map_or(0, |n| n.saturating_neg())),
                 offsets: self.offsets.clone(),
             },
             PatchId::Name(patchname) if stack.has_patch(patchname) => DisambiguatedLocator {
